@@ -101,90 +101,158 @@ def c11(rep, tier):
     inloop = mm.mutations(mm.budget['body'])
     A.check(len(allmut) == len(inloop) and len(allmut) >= 1, 'apply_macros: rewrites only inside the budget loop', '%d mutation(s) of the stream, all inside the loop' % len(allmut),
             'the token stream is rewritten outside the budget loop', W(am, None, mm.facts))
-    # one rewrite per iteration: mutations in one block that sets the flag; the bin loop is left when the flag is set
+    # ---- path properties over the CFG of apply_macros
+    g = mm.M.cfg(am)
+    bud_cond = [n for n in g.nodes if n.kind == 'cond' and n.stmt is mm.budget]
+    bud_cond = bud_cond[0] if bud_cond else None
+    # the change flag: the bool local tested by the guard of the too-many-substitutions error
     flag = None
-    block = None
-    for st in walk_stmts(mm.budget['body']):
-        if st['k'] == 'if' and st.get('t') is not None:
-            muts = mm.mutations(st['t'])
-            if muts and len(muts) == len(inloop):
-                block = st['t']
-    if block is not None:
-        for e in walk_all_exprs(block):
-            if e.get('k') == 'assign' and strip_casts(e['r']).get('v') is True:
-                flag = strip_casts(e['l'])
-    ok1 = block is not None and flag is not None
-    leave = False
-    if ok1 and mm.inner is not None:
-        body = mm.inner['body']
-        last = body['s'][-1] if body['k'] == 'block' and body['s'] else body
-        if last['k'] == 'if' and strip_casts(last['c']).get('d') == flag.get('d') and any(x['k'] == 'break' for x in walk_stmts(last['t'])):
-            leave = True
-        resets = [e for e in walk_all_exprs(mm.inner['body']) if e.get('k') == 'assign' and strip_casts(e['l']).get('d') == flag.get('d') and strip_casts(e['r']).get('v') is False]
-        leave = leave and not resets
-    elif ok1 and mm.inner is None:
-        leave = True
-    A.check(ok1 and leave, 'apply_macros: one rewrite per pass', 'the rewrite block sets the change flag and the priority-bin loop is left when it is set',
-            'several rewrites can happen within one counted pass', W(am, mm.inner or mm.budget, mm.facts))
-    # the rewrite is not itself inside a further loop (that would rewrite several times per counted pass)
-    def loops_around(root, target, acc=()):
-        from .facts import stmt_children
-        if root is None:
-            return None
-        if any(x is target for x in walk_all_exprs(root)) is False:
-            return None
-        ss, es = stmt_children(root)
-        for c in ss:
-            r = loops_around(c, target, acc + ((root,) if root['k'] in ('for', 'while', 'do', 'rangefor') else ()))
-            if r is not None:
-                return r
-        return acc + ((root,) if root['k'] in ('for', 'while', 'do', 'rangefor') else ())
-    extra_loops = []
-    for mu in inloop:
-        la = loops_around(mm.budget['body'], mu) or ()
-        extra_loops.extend(l for l in la if l is not mm.inner)
-    A.check(not extra_loops, 'apply_macros: the rewrite is not repeated inside a pass', 'the splice is enclosed only by the budget loop and the priority-bin loop',
-            'the splice sits in a further loop (line %s): one counted pass can rewrite many times, the budget no longer bounds the number of steps' % (
-                extra_loops[0]['loc'][0] if extra_loops else ''), W(am, extra_loops[0] if extra_loops else None, mm.facts))
-    # the budget loop is left only by its bound or by "nothing changed in this pass", tested after the bins were tried
-    exits = []
-    body_stmts = mm.budget['body']['s'] if mm.budget['body']['k'] == 'block' else [mm.budget['body']]
-    inner_pos = [i for i, st in enumerate(body_stmts) if st is mm.inner or any(x is mm.inner for x in walk_stmts(st))]
-    for i, st in enumerate(body_stmts):
-        if st is mm.inner or any(x is mm.inner for x in walk_stmts(st)):
-            # breaks inside the bin loop leave the bin loop only; returns are exits
-            exits.extend((i, x, None) for x in walk_stmts(st) if x['k'] == 'return')
-            continue
-        for x in walk_stmts(st):
-            if x['k'] in ('break', 'return'):
-                exits.append((i, x, st))
+    for ev in g.calls():
+        if is_call(ev.e, '::push_back') and 'MACRO_APPLY_REACHED_MAX_PASSES' in show(ev.e):
+            for cond, label, cn in g.guards_of(ev):
+                c0 = strip_casts(cn.exprs[0]) if cn.exprs else None
+                if label is True and c0 is not None and c0.get('k') == 'ref' and (c0.get('cty') or '').replace('const ', '') == 'bool':
+                    flag = c0
+    mut_evs = [g.ev(mu) for mu in inloop if mu.get('sid') in g.by_sid]
+    sets = [ev for ev in g.events if flag is not None and ev.e.get('k') == 'assign' and strip_casts(ev.e['l']).get('d') == flag.get('d') and
+            strip_casts(ev.e['r']).get('v') is True and any(x is ev.e for x in walk_all_exprs(mm.budget['body']))]
+    resets = [ev for ev in g.events if flag is not None and ev.e.get('k') == 'assign' and strip_casts(ev.e['l']).get('d') == flag.get('d') and
+              strip_casts(ev.e['r']).get('v') is False and any(x is ev.e for x in walk_all_exprs(mm.budget['body']))]
+
+    def reach_avoiding(src_node, avoid_ids):
+        seen, work = set(), list(src_node.succ)
+        while work:
+            n = work.pop()
+            if n.id in seen or n.id in avoid_ids:
+                continue
+            seen.add(n.id)
+            work.extend(n.succ)
+        return seen
+    in_body = set()
+    if bud_cond is not None:
+        body_ids = set(n.id for n in g.nodes if any(x is n.stmt for x in walk_stmts(mm.budget['body'])) or
+                       (n.kind in ('branch', 'cond') and n.of is not None and any(x is getattr(n.of, 'stmt', None) for x in walk_stmts(mm.budget['body']))))
+    # one rewrite per counted pass: after a splice, control cannot come back to it without going through the loop condition
+    def flag_writes(node, after_idx=-1):
+        st = None
+        for ev2 in node.events:
+            if ev2.idx <= after_idx:
+                continue
+            e2 = ev2.e
+            if flag is not None and e2.get('k') == 'assign' and strip_casts(e2['l']).get('d') == flag.get('d'):
+                v2 = strip_casts(e2['r']).get('v')
+                st = True if v2 is True else (False if v2 is False else '?')
+        return st
+
+    def reach_with_flag(mev, avoid_ids):
+        """nodes reachable from the splice without passing avoid_ids, following only the branches that agree with the value of
+        the change flag along the path (the flag is known after an assignment of a literal)"""
+        st0 = True if any(g.dominates(sv, mev) for sv in sets) else '?'
+        w = flag_writes(mev.node, mev.idx)
+        if w is not None:
+            st0 = w
+        seen = set()
+        work = [(x, st0) for x in mev.node.succ]
+        out = set()
+        while work:
+            n, st = work.pop()
+            if (n.id, st) in seen or n.id in avoid_ids:
+                continue
+            seen.add((n.id, st))
+            out.add(n.id)
+            if n.kind == 'branch' and flag is not None and n.of is not None and n.of.exprs and isinstance(n.label, bool) and st in (True, False):
+                c = g.expanded(n.of.exprs[0])
+                is_flag = lambda z: z.get('k') == 'ref' and z.get('d') == flag.get('d')
+                # the branch is taken only if its condition can hold with flag == st
+                if guard_implies(c, n.label, is_flag, (not st)):
+                    continue          # this branch requires the opposite flag value
+            w = flag_writes(n)
+            st2 = w if w is not None else st
+            for x in n.succ:
+                work.append((x, st2))
+        return out
+    repeated = None
+    for mev in mut_evs:
+        if bud_cond is None:
+            break
+        r = reach_with_flag(mev, {bud_cond.id})
+        if mev.node.id in r:
+            repeated = mev
+            break
+    if bud_cond is None or not mut_evs:
+        A.unknown('apply_macros: one rewrite per pass', 'budget loop / splice not found in the control-flow graph')
+    else:
+        A.check(repeated is None, 'apply_macros: one rewrite per pass', 'after a splice every path passes the test of the budget loop before the next splice',
+                'several rewrites can happen within one counted pass: the splice at line %s can be reached again without passing the budget test' % (
+                    repeated.e['loc'][0] if repeated else ''), W(am, repeated.e if repeated else None, mm.facts))
+    # the splice sets the flag (before or after it, within the pass) and nothing clears it afterwards in that pass
+    if flag is None:
+        A.unknown('apply_macros: the rewrite sets the change flag', 'change flag not identified (no bool guard of the too-many-substitutions error)')
+    else:
+        okset = bool(mut_evs) and all(any(g.dominates(sv, mev) or g.postdominates(sv, mev) for sv in sets) for mev in mut_evs)
+        cleared = None
+        for mev in mut_evs:
+            r = reach_avoiding(mev.node, {bud_cond.id} if bud_cond is not None else set())
+            for rv in resets:
+                if rv.node.id in r or (rv.node is mev.node and rv.idx > mev.idx):
+                    cleared = rv
+        A.check(okset and cleared is None, 'apply_macros: the rewrite sets the change flag', 'every splice is accompanied by %s = true and the flag is not cleared before the pass ends' % flag['name'],
+                ('the flag is cleared again at line %s after a splice in the same pass' % cleared.e['loc'][0]) if cleared else 'a splice can happen without the change flag being set',
+                W(am, (cleared.e if cleared else (mut_evs[0].e if mut_evs else None)), mm.facts))
+    # the budget loop is left only by its bound or by "nothing changed in this pass"
+    def exits_of(loop):
+        out = []
+
+        def rec(st, breakable):
+            if st is None:
+                return
+            k = st['k']
+            if k == 'return':
+                out.append(st)
+            elif k == 'break' and not breakable:
+                out.append(st)
+            from .facts import stmt_children
+            ss, es = stmt_children(st)
+            inner_breakable = breakable or (k in ('for', 'while', 'do', 'rangefor', 'switch'))
+            for c in ss:
+                rec(c, inner_breakable if st is not loop['body'] else breakable)
+        rec(loop['body'], False)
+        return out
     bad_exits = []
-    for i, x, st in exits:
+    early = False
+    for x in exits_of(mm.budget):
+        n = [nn for nn in g.nodes if nn.stmt is x]
         okx = False
-        if st is not None and st['k'] == 'if' and flag is not None and inner_pos and i > inner_pos[-1]:
-            c2 = strip_casts(st['c'])
-            okx = c2.get('k') == 'un' and c2['op'] == '!' and strip_casts(c2['e']).get('d') == flag.get('d')
+        if flag is not None:
+            # guards of the exit: the enclosing conditions
+            conds = []
+            for st in walk_stmts(mm.budget['body']):
+                if st['k'] == 'if' and any(y is x for y in walk_stmts(st['t'])):
+                    conds.append((st['c'], True))
+                if st['k'] == 'if' and st.get('e') is not None and any(y is x for y in walk_stmts(st['e'])):
+                    conds.append((st['c'], False))
+            for c, lab in conds:
+                if guard_implies(g.expanded(c), lab, lambda z: z.get('k') == 'ref' and z.get('d') == flag.get('d'), False):
+                    okx = True
+        if okx and x['k'] == 'break':
+            early = True
         if not okx:
             bad_exits.append(x)
-    A.check(not bad_exits, 'apply_macros: exits of the budget loop', 'left only when a whole pass changed nothing (tested after the bins were tried) or when the budget is used up',
+    A.check(not bad_exits, 'apply_macros: exits of the budget loop', 'left only when a whole pass changed nothing or when the budget is used up',
             'the loop can be left at line %s without "nothing changed in this pass": an unfinished expansion is passed on without the too-many-substitutions error'
             % (bad_exits[0]['loc'][0] if bad_exits else ''), W(am, bad_exits[0] if bad_exits else None, mm.facts))
     calls = [e for e in walk_all_exprs(mm.budget['body']) if is_call(e, 'get_replacement')]
-    A.check(len(calls) == 1 and block is not None and any(x is calls[0] for x in walk_all_exprs(block)), 'apply_macros: one instantiation per rewrite',
-            'get_replacement is called once, inside the rewrite block', '%d get_replacement call(s)' % len(calls), W(am, None, mm.facts))
+    inst_ok = len(calls) == 1 and calls[0].get('sid') in g.by_sid and bool(mut_evs) and all(g.dominates(g.by_sid[calls[0]['sid']], mev) or g.by_sid[calls[0]['sid']].node is mev.node for mev in mut_evs if (mev.e.get('callee') or '').endswith('::insert'))
+    A.check(inst_ok, 'apply_macros: one instantiation per rewrite',
+            'get_replacement is called once and its result is what the splice inserts', '%d get_replacement call(s), not tied to the splice' % len(calls), W(am, None, mm.facts))
 
     B = rep.rule('C11.b', 'the change flag is reset at the top of every pass; after the loop a set flag is reported as '
                           'MACRO_APPLY_REACHED_MAX_PASSES', floor=2)
-    okreset = False
-    if flag is not None:
-        body = mm.budget['body']
-        first = body['s'][0] if body['k'] == 'block' and body['s'] else None
-        if first is not None and first['k'] == 'expr':
-            e = strip_casts(first['e'])
-            okreset = e.get('k') == 'assign' and strip_casts(e['l']).get('d') == flag.get('d') and strip_casts(e['r']).get('v') is False
-    B.check(okreset, 'apply_macros: flag reset', 'changed = false is the first statement of the pass', 'the change flag is not reset per pass', W(am, mm.budget, mm.facts))
+    # the reset dominates every splice and every setting of the flag within the pass
+    okreset = flag is not None and bool(resets) and any(all(g.dominates(rv, x) for x in mut_evs + sets) for rv in resets)
+    B.check(okreset, 'apply_macros: flag reset', '%s = false at the start of the pass, before any splice' % (flag['name'] if flag else 'flag'),
+            'the change flag is not reset per pass', W(am, mm.budget, mm.facts))
     okerr = False
-    g = mm.M.cfg(am)
     for ev in g.calls():
         if is_call(ev.e, '::push_back') and 'errors' in show(ev.e['obj']) and 'MACRO_APPLY_REACHED_MAX_PASSES' in show(ev.e):
             # after the loop, guarded by the flag
@@ -216,13 +284,7 @@ def c11(rep, tier):
                                     'too-many-substitutions error' % gtxt[:100], W(am, e, mm.facts), witness={'macros': 'DEFINE ping AS pong END DEFINE  DEFINE pong AS ping END DEFINE', 'input': 'x0 := ping'})
                     else:
                         B.unknown('apply_macros: flag after the loop', 'the change flag is cleared after the budget loop under %s' % (gtxt[:100] or 'no condition'))
-    # leaving early when nothing changed
-    early = False
-    for st in (mm.budget['body']['s'] if mm.budget['body']['k'] == 'block' else []):
-        if st['k'] == 'if' and flag is not None:
-            c2 = strip_casts(st['c'])
-            if c2.get('k') == 'un' and c2['op'] == '!' and strip_casts(c2['e']).get('d') == flag.get('d') and any(x['k'] == 'break' for x in walk_stmts(st['t'])):
-                early = True
+    # leaving early when nothing changed (computed above: a break out of the budget loop under !flag)
     B.check(early, 'apply_macros: stop when stable', 'if (!changed) break', 'the loop does not stop when no pattern matches (error would be reported for finished expansions)',
             W(am, mm.budget, mm.facts))
 
@@ -537,8 +599,32 @@ def c09(rep, tier):
             cnd = inner.get('c')
             okrev = is_call(i0, '::rbegin') and strip_casts(i0['obj']).get('d') == prios['d'] and cnd is not None and 'rend' in show(cnd) and \
                 inner.get('inc') is not None and '++' in show(inner['inc'])
-        B.check(okrev, 'apply_macros: bins visited from the highest', 'for (p = prios.rbegin(); p != prios.rend(); p++)', 'bins are not visited highest-first',
-                W(am, inner, mm.facts))
+        ascending = False
+        if inner is not None and inner['k'] == 'rangefor' and strip_casts(inner['range']).get('d') == prios['d']:
+            ascending = True
+        if inner is not None and inner['k'] == 'for' and inner.get('init') and inner['init']['k'] == 'decl':
+            i0_ = strip_casts(inner['init']['vars'][0].get('init'))
+            if (is_call(i0_, '::begin') or is_call(i0_, '::cbegin')) and strip_casts(i0_['obj']).get('d') == prios['d'] and inner.get('inc') is not None and '++' in show(inner['inc']):
+                ascending = True
+        lower_start = None
+        if not okrev and inner is not None and inner['k'] == 'for' and inner.get('init') and inner['init']['k'] == 'decl':
+            i0_ = strip_casts(strip_copies(inner['init']['vars'][0].get('init')))
+            cnd_ = inner.get('c')
+            if i0_ is not None and i0_.get('k') == 'ref' and i0_.get('dk') == 'var' and cnd_ is not None and 'rend' in show(cnd_):
+                defs_ = mm.M.defs(am).get(i0_['d'], [])
+                srcs = [strip_casts(strip_copies(x[1])) for x in defs_ if x[1] is not None]
+                if srcs and any(not (is_call(x, '::rbegin') and strip_casts(x['obj']).get('d') == prios['d']) for x in srcs) and \
+                        any(is_call(x, '::rbegin') for x in srcs):
+                    lower_start = i0_['name']
+        if lower_start:
+            B.violation('apply_macros: bins visited from the highest', 'the sweep over the bins starts at %s, which is not always the highest bin: a replacement can make a '
+                        'higher-priority macro applicable that is then tried only after lower ones' % lower_start, W(am, inner, mm.facts))
+        elif okrev:
+            B.ok('apply_macros: bins visited from the highest', 'for (p = prios.rbegin(); p != prios.rend(); p++)', W(am, inner, mm.facts))
+        elif ascending:
+            B.violation('apply_macros: bins visited from the highest', 'the bins of the ascending map are visited from begin(): the lowest priority is tried first', W(am, inner, mm.facts))
+        else:
+            B.unknown('apply_macros: bins visited from the highest', 'the iteration over the priority bins has a shape that is not recognised')
     D = rep.rule('C09.d', 'the erased range is [location, location+length) and the body is inserted at location of the same match', floor=2)
     muts = mm.mutations(am['body'])
     er = [e for e in muts if (e.get('callee') or '').endswith('::erase')]
@@ -719,6 +805,21 @@ def detect_rule(G, mm):
     where = W(det, None, mm.facts)
     inp = det['params'][0] if det['params'] else None
     loops = [st for st in walk_stmts(det['body']) if st['k'] in ('for', 'while', 'do', 'rangefor') and any(is_call(e, '::parse') for e in walk_all_exprs(st.get('body')))]
+    helper = None
+    if not loops:
+        # the per-position work may live in a member helper called with the position: detect() keeps the scan loop
+        for st in walk_stmts(det['body']):
+            if st['k'] != 'for':
+                continue
+            cv0 = counter_of(st)
+            for e in walk_all_exprs(st['body']):
+                if e.get('k') == 'call' and e.get('callee_in_repo') and (e.get('callee') or '').startswith('MacroDetector::') and cv0 is not None:
+                    h = mm.facts.fn(e.get('callee'), optional=True)
+                    idx = [i for i, a in enumerate(e['args']) if strip_casts(a).get('d') == cv0['d']]
+                    if h is not None and h.get('body') is not None and idx and any(is_call(x, '::parse') for x in walk_all_exprs(h['body'])):
+                        helper = (h, h['params'][idx[0]], e, st)
+        if helper:
+            loops = [helper[3]]
     if len(loops) != 1 or loops[0]['k'] != 'for' or inp is None:
         G.unknown('detect: leftmost', 'the scan over the start positions is not a single counting loop around the parse call')
         return
@@ -728,6 +829,11 @@ def detect_rule(G, mm):
         G.unknown('detect: leftmost', 'loop counter not recognised')
         return
     why, unk = [], []
+    # where the position is parsed and a match is built: detect() itself, or the helper with its position parameter
+    bfn, bg, posd = det, g, cv['d']
+    if helper:
+        bfn, posd = helper[0], helper[1]['d']
+        bg = mm.M.cfg(bfn)
     i0 = strip_casts(cv.get('init'))
     if i0 is not None and i0.get('k') == 'int':
         if i0['v'] != 0:
@@ -784,12 +890,12 @@ def detect_rule(G, mm):
         if tgt is not None and tgt.get('k') == 'ref' and tgt.get('d') == cv['d']:
             why.append('the position counter is changed inside the loop body (%s): start positions are skipped' % show(e)[:50])
     # parse from begin() + counter
-    pc = [e for e in walk_all_exprs(L['body']) if is_call(e, '::parse')]
+    pc = [e for e in walk_all_exprs(bfn['body'] if helper else L['body']) if is_call(e, '::parse')]
     from_pos = False
     for x in walk_expr(pc[0]):
         if x.get('k') in ('bin', 'call') and x.get('op') == '+':
             parts = [x['l'], x['r']] if x['k'] == 'bin' else ([x['obj']] if x.get('obj') is not None else []) + list(x['args'])
-            if any(is_call(strip_conv(p_), '::begin') for p_ in parts) and any(strip_casts(p_).get('d') == cv['d'] for p_ in parts):
+            if any(is_call(strip_conv(p_), '::begin') for p_ in parts) and any(strip_casts(p_).get('d') == posd for p_ in parts):
                 from_pos = True
     if not from_pos:
         # begin() + x with x computed from the counter
@@ -799,23 +905,23 @@ def detect_rule(G, mm):
                 parts = [x['l'], x['r']] if x['k'] == 'bin' else ([x['obj']] if x.get('obj') is not None else []) + list(x['args'])
                 if any(is_call(strip_conv(p_), '::begin') for p_ in parts):
                     for p_ in parts:
-                        o = mm.M.origin(det, p_)
+                        o = mm.M.origin(bfn, p_)
                         for y in walk_expr(o) if o is not None else []:
-                            if y.get('k') == 'bin' and y['op'] == '-' and any(z.get('k') == 'ref' and z.get('d') == cv['d'] for z in walk_expr(y['r'])):
+                            if y.get('k') == 'bin' and y['op'] == '-' and any(z.get('k') == 'ref' and z.get('d') == posd for z in walk_expr(y['r'])):
                                 desc = True
         if desc:
             why.append('the start position decreases as the loop counter grows: the scan runs from right to left and the rightmost match is returned')
         else:
             unk.append('start of the parsed range %s' % show(pc[0])[:70])
     # returns inside the loop
-    rets = [n for n in g.returns() if any(x is n.stmt for x in walk_stmts(L['body']))]
+    rets = [n for n in bg.returns() if helper or any(x is n.stmt for x in walk_stmts(L['body']))]
     hits = [n for n in rets if n.stmt.get('e') is not None and 'nullopt' not in show(n.stmt['e'])]
     if len(hits) != 1:
         unk.append('%d returns of a match inside the loop' % len(hits))
     else:
         n = hits[0]
         ev = n.events[0] if n.events else None
-        guards = g.guards_of(ev) if ev is not None else []
+        guards = bg.guards_of(ev) if ev is not None else []
 
         def is_accept(c2):
             return c2.get('k') in ('bin', 'call') and c2.get('op') == '==' and 'ACCEPT' in show(c2)
@@ -834,14 +940,31 @@ def detect_rule(G, mm):
         for x in walk_expr(n.stmt['e']):
             if x.get('k') == 'init' and x.get('fields'):
                 first = strip_casts(x['fields'][0][1]) if isinstance(x['fields'][0], (list, tuple)) else None
-                if first is not None and first.get('d') == cv['d']:
+                if first is not None and first.get('d') == posd:
                     loc_ok = True
             if x.get('k') == 'init' and x.get('elems'):
                 first = strip_casts(x['elems'][0])
-                if first is not None and first.get('d') == cv['d']:
+                if first is not None and first.get('d') == posd:
                     loc_ok = True
         if not loc_ok:
             unk.append('location of the returned match')
+    if helper:
+        # detect() returns the helper's answer only when it is a match
+        okret = False
+        for st in walk_stmts(L['body']):
+            if st['k'] == 'if' and any(x['k'] == 'return' for x in walk_stmts(st['t'])):
+                v = st.get('var')
+                ctext = show(st['c']) if st.get('c') is not None else ''
+                if v is not None and v.get('init') is not None and any(x is helper[2] for x in walk_expr(v['init'])):
+                    okret = all(strip_casts(strip_copies(x['e'])).get('d') == v['d'] for x in walk_stmts(st['t']) if x['k'] == 'return' and x.get('e') is not None)
+                elif 'has_value' in ctext or any(x is helper[2] for x in walk_expr(st['c'] or {})):
+                    okret = True
+        unguarded = [x for x in walk_stmts(L['body']) if x['k'] == 'return' and x.get('e') is not None and
+                     not any(st2['k'] == 'if' and any(y is x for y in walk_stmts(st2['t'])) for st2 in walk_stmts(L['body']))]
+        if unguarded:
+            why.append('detect() returns the answer for the first start position whether or not it is a match (line %s)' % unguarded[0]['loc'][0])
+        elif not okret:
+            unk.append('how detect() hands on the helper\'s match')
     # leaving the loop early without a match
     brk = [x for x in walk_stmts(L['body']) if x['k'] == 'break']
     if brk:
@@ -1399,6 +1522,12 @@ def non_lr_error_rule(mm, rep, A):
     else:
         verdicts = [False]
     txt = show(e).replace('this->', '')
+    # locals standing for the first pattern token are spelled out (const Token &first = md.rule.front())
+    for x in walk_expr(e):
+        if x.get('k') == 'ref' and x.get('dk') == 'var':
+            o = mm.M.origin(f, x)
+            if o is not None and o is not x:
+                txt = txt.replace(x['name'] + '.', show(strip_copies(strip_casts(o))).replace('this->', '') + '.').replace(x['name'] + '->', show(strip_copies(strip_casts(o))).replace('this->', '') + '->')
     first = any(p in txt for p in ('rule.begin()->file', 'rule.front().file', 'rule[0].file', 'rule.at(0).file')) and \
         any(p in txt for p in ('rule.begin()->line', 'rule.front().line', 'rule[0].line', 'rule.at(0).line'))
     other_pos = any(p in txt for p in ('rule.back()', 'rule.end()', 'rule.rbegin()', 'replacement'))
